@@ -30,13 +30,13 @@ class Outcome:
 
 def run_program(program, choices=(), preempt_at=(), transport="pipe", backend_b="thread", chunks_ab=None,
                 chunks_ba=None, send_chunks=None, count_lines=False, record=False, exit_gateway=True, keep_wire=False,
-                before_exit=None, sparse=None):
+                before_exit=None, sparse=None, focus=None):
     tree.use()
     out = Outcome()
     s = D.Scheduler(choices, preempt_at=preempt_at, record=record, sparse=sparse)
     out.sched = s
     if preempt_at or count_lines:
-        s.enable_line_tracing()
+        s.enable_line_tracing(focus)
     D.install_os_proxy(s)
     pair = wires.InprocPair(s, backend_b=backend_b, transport=transport, chunks_ab=chunks_ab, chunks_ba=chunks_ba,
                             send_chunks=send_chunks)
